@@ -29,6 +29,30 @@ type c08Case struct {
 	Spec     gen.MsgSpec `json:"spec"`
 	Features []string    `json:"features"` // empty-genheader, ignored-invalid-cc, ignored-invalid-to-partial, preformatted, preformatted-multiline, long-subject, envelope-from-only, bcc
 	OpenSSL  bool        `json:"openssl"`
+	// Mutate: builder calls made on the message after it has been rendered (and signed) twice; it is then rendered a
+	// third time: add-alternative, attach, embed, subject, gen-header, set-body, add-to
+	Mutate []string `json:"mutate_after_render,omitempty"`
+}
+
+func c08Mutate(m *mail.Msg, ops []string) {
+	for _, op := range ops {
+		switch op {
+		case "add-alternative":
+			m.AddAlternativeString(mail.TypeTextHTML, "<p>added after the first signing</p>\r\n")
+		case "attach":
+			_ = m.AttachReader("late.txt", strings.NewReader("attached after the first signing\r\n"))
+		case "embed":
+			_ = m.EmbedReader("late.png", strings.NewReader("embedded after the first signing\r\n"))
+		case "subject":
+			m.Subject("changed after the first signing")
+		case "gen-header":
+			m.SetGenHeader("X-Late", "added after the first signing")
+		case "set-body":
+			m.SetBodyString(mail.TypeTextPlain, "body replaced after the first signing\r\n")
+		case "add-to":
+			_ = m.AddTo("late@example.net")
+		}
+	}
 }
 
 const opensslBin = "/usr/bin/openssl"
@@ -212,13 +236,21 @@ func opensslVerify(out []byte, chain bool) (ok bool, msg string) {
 	return true, ""
 }
 
-// c08Verify renders the case twice and returns the problems per render.
-func c08Verify(r *ev.Run, c c08Case, count bool) (probs [2][]string, outs [2][]byte, err error) {
+// c08Verify renders the case twice (three times with mutations: they are applied before the third render) and
+// returns the problems per render.
+func c08Verify(r *ev.Run, c c08Case, count bool) (probs [3][]string, outs [3][]byte, err error) {
 	m, berr := c08Build(&c)
 	if berr != nil {
 		return probs, outs, berr
 	}
-	for render := 0; render < 2; render++ {
+	renders := 2
+	if len(c.Mutate) > 0 {
+		renders = 3
+	}
+	for render := 0; render < renders; render++ {
+		if render == 2 {
+			c08Mutate(m, c.Mutate)
+		}
 		var buf bytes.Buffer
 		var werr error
 		func() {
@@ -238,6 +270,9 @@ func c08Verify(r *ev.Run, c c08Case, count bool) (probs [2][]string, outs [2][]b
 		probs[render] = p
 		if count {
 			r.Count("signatures_verified", 1)
+			if render == 2 {
+				r.Count("signatures_verified_after_mutation", 1)
+			}
 		}
 	}
 	return probs, outs, nil
@@ -266,7 +301,7 @@ func runC08Case(r *ev.Run, c c08Case) {
 		return
 	}
 	feat := c08Feature(&c)
-	failing := len(probs[0])+len(probs[1]) > 0
+	failing := len(probs[0])+len(probs[1])+len(probs[2]) > 0
 	if failing {
 		// find a minimal set of removable features that still fails (greedy delta)
 		min := c
@@ -280,7 +315,7 @@ func runC08Case(r *ev.Run, c c08Case) {
 			}
 			t := min
 			t.Features = without
-			if p, _, e := c08Verify(r, t, false); e == nil && len(p[0])+len(p[1]) > 0 {
+			if p, _, e := c08Verify(r, t, false); e == nil && len(p[0])+len(p[1])+len(p[2]) > 0 {
 				min = t
 			}
 		}
@@ -291,7 +326,7 @@ func runC08Case(r *ev.Run, c c08Case) {
 		for i := range t.Spec.Parts {
 			t.Spec.Parts[i].Desc = ""
 		}
-		if p, _, e := c08Verify(r, t, false); e == nil && len(p[0])+len(p[1]) > 0 {
+		if p, _, e := c08Verify(r, t, false); e == nil && len(p[0])+len(p[1])+len(p[2]) > 0 {
 			min = t
 		}
 		t = min
@@ -307,13 +342,16 @@ func runC08Case(r *ev.Run, c c08Case) {
 				t.Spec.Attach[i].Enc = ""
 			}
 		}
-		if p, _, e := c08Verify(r, t, false); e == nil && len(p[0])+len(p[1]) > 0 {
+		if p, _, e := c08Verify(r, t, false); e == nil && len(p[0])+len(p[1])+len(p[2]) > 0 {
 			min = t
 		}
 		feat = c08Feature(&min)
 		r.Count("minimised_failing_cases", 1)
 	}
-	for render := 0; render < 2; render++ {
+	for render := 0; render < 3; render++ {
+		if render == 2 && len(probs[2]) > 0 && len(probs[0])+len(probs[1]) == 0 {
+			feat = "after-" + strings.Join(c.Mutate, "+") + ":" + feat
+		}
 		for _, p := range hardProblems(probs[render]) {
 			viol(fmt.Sprintf("%s:%s", probCode(p), feat), fmt.Sprintf("render %d (%s key, intermediate=%t): the signature does not verify: %s (minimal failing feature set: %s)", render+1, c.Spec.SMIME, c.Spec.WithInt, p, feat), ev.Q(outs[render], 2500))
 		}
@@ -349,6 +387,8 @@ func runC08Case(r *ev.Run, c c08Case) {
 	r.Eval(c.Spec.Shape()+"|"+c08Feature(&c), true)
 }
 
+var c08Mutations = []string{"add-alternative", "attach", "embed", "subject", "gen-header", "set-body", "add-to"}
+
 var c08Features = []string{"empty-genheader", "ignored-invalid-cc", "ignored-invalid-to-partial", "preformatted", "preformatted-multiline", "long-subject", "bcc", "importance", "mdn"}
 
 func genC08(rng *mrand.Rand, id string, p, e, a int, enc string) c08Case {
@@ -374,6 +414,11 @@ func genC08(rng *mrand.Rand, id string, p, e, a int, enc string) c08Case {
 		s.Boundary = "verif-custom-boundary-0123456789"
 	}
 	c := c08Case{Spec: s}
+	if rng.Intn(4) == 0 {
+		for k := 0; k < 1+rng.Intn(2); k++ {
+			c.Mutate = append(c.Mutate, gen.Pick(rng, c08Mutations))
+		}
+	}
 	for _, f := range c08Features {
 		if rng.Intn(7) == 0 {
 			c.Features = append(c.Features, f)
@@ -384,7 +429,7 @@ func genC08(rng *mrand.Rand, id string, p, e, a int, enc string) c08Case {
 
 func runC08(r *ev.Run, rep *ev.ReplayDoc) ev.Summary {
 	sum := ev.Summary{
-		Rule: "S/MIME-signed messages over enumerated shapes (parts 0-3 x embeds 0-2 x attachments 0-2) and random specs with canonical-CRLF content, every transfer encoding per part and file, part descriptions, empty generic headers, address lists emptied by the IgnoreInvalid setters, (multi-line) preformatted headers, long folded headers, RSA-2048 and ECDSA-P256 signer certificates with and without the intermediate; each message rendered twice. The harness splits multipart/signed with its own MIME reader and verifies the detached CMS SignedData with its own verifier; openssl smime -verify cross-checks (all cases in quick, a sample in thorough). distinct by (shape, features)",
+		Rule: "S/MIME-signed messages over enumerated shapes (parts 0-3 x embeds 0-2 x attachments 0-2) and random specs with canonical-CRLF content, every transfer encoding per part and file, part descriptions, empty generic headers, address lists emptied by the IgnoreInvalid setters, (multi-line) preformatted headers, long folded headers, RSA-2048 and ECDSA-P256 signer certificates with and without the intermediate; each message rendered twice, and a third time after further builder calls (add an alternative / attachment / embed, change subject or header, replace the body, add a recipient). The harness splits multipart/signed with its own MIME reader and verifies the detached CMS SignedData with its own verifier; openssl smime -verify cross-checks (all cases in quick, a sample in thorough). distinct by (shape, features)",
 		Assumptions: []string{
 			"the signed entity is the first body part exactly as emitted, without the CRLF that belongs to the following delimiter (RFC 1847)",
 			"trust in the harness CMS verifier is established per run against OpenSSL 3 on every cross-checked message (a disagreement in the accepting direction is a harness error)",
@@ -455,6 +500,20 @@ func runC08(r *ev.Run, rep *ev.ReplayDoc) ev.Summary {
 					c.OpenSSL = n%2 == 0
 					cases = append(cases, c)
 				}
+			}
+		}
+	}
+	// every mutation between renders on small shapes, both key types
+	for _, mu := range c08Mutations {
+		for _, k := range []string{"rsa", "ecdsa"} {
+			for shape := 0; shape < 3; shape++ {
+				n++
+				c := genC08(r.Rng("c08m", n), fmt.Sprintf("c08-m%d", n), []int{1, 2, 1}[shape], 0, []int{0, 0, 1}[shape], "quoted-printable")
+				c.Spec.SMIME = k
+				c.Features = nil
+				c.Mutate = []string{mu}
+				c.OpenSSL = shape == 0
+				cases = append(cases, c)
 			}
 		}
 	}
